@@ -35,4 +35,10 @@ int cfgv_blanks;
  * terminator index if there is none); "equals" is the verdict of the strcmp / strcasecmp carrier of the unit. */
 int cfgv_first;
 #define CFG_VERIF_LOOP_getopt_leaf __CPROVER_assigns(i) __CPROVER_loop_invariant(i <= (unsigned int)cfgv_first) __CPROVER_decreases(cfgv_term_k - (int)i)
+/* cfg_print_pff_indent(): ghost monitor of the unit's filter / option-printer carriers: cfgv_pos entries have been dealt
+ * with (filtered or printed) in order, cfgv_fasked = the filter has been asked about entry cfgv_pos, cfgv_sum = sum of the
+ * option printer's results so far. */
+int cfgv_pos, cfgv_sum; _Bool cfgv_fasked;
+#define CFG_VERIF_LOOP_print_cfg __CPROVER_assigns(i, result, cfgv_pos, cfgv_fasked, cfgv_sum) \
+	__CPROVER_loop_invariant(0 <= i && i <= cfgv_term_k && i == cfgv_pos && !cfgv_fasked && result == cfgv_sum && -i <= result && result <= 0) __CPROVER_decreases(cfgv_term_k - i)
 #endif
